@@ -149,9 +149,18 @@ FunctorManager::Env FunctorManager::createEnv(Context& caller, unsigned id, cons
   assert(entry.functor->params.size() == pvals.size());
 
   /* bind parameter values ​​to variables for all symbols */
-  unsigned i = 0;
-  for (const Symbol& symbol : entry.functor->params)
-    VariableExpression(symbol).store(*_ctx, caller, pvals[i++]);
+  try
+  {
+    unsigned i = 0;
+    for (const Symbol& symbol : entry.functor->params)
+      VariableExpression(symbol).store(*_ctx, caller, pvals[i++]);
+  }
+  catch (...)
+  {
+    /* an argument failed: hand the context back, else nobody releases it */
+    entry.ctx_cache.push_front(_ctx);
+    throw;
+  }
 
   return Env(entry, _ctx);
 }
